@@ -290,20 +290,25 @@ Definition stored_set (raw : list (list Z)) : clause_set :=
   cs_of_list (map mk_clause (simplify_clauses raw)).
 
 (* build_ddnnf on a .cnf file with header n and clause lines raw: the model is compiled from the
-   file as written; HEAD creates the cache only if the stored set is non-empty (Ddnnf::new:
-   `if !clauses.is_empty()`, finding K11; cache_if_empty = false); the proposed repair
-   (repo_patches/F9-empty-cnf-clause-cache.patch) creates it for every CNF input
-   (cache_if_empty = true).  None = loading panics *)
-Definition load_cnf_with (cache_if_empty : bool) (loadable : clause_set -> nat -> bool)
+   file as written and Ddnnf::new attaches the clause cache, initialised with the stored set, to
+   EVERY model built from a CNF file - also when the stored set is empty (a CNF without clauses or
+   with tautologies only): `if ddnnf.inter_graph.from_cnf || !clauses.is_empty()`, repair F9.
+   None = loading panics *)
+Definition load_cnf (loadable : clause_set -> nat -> bool)
+           (raw : list (list Z)) (n : nat) : option dstate :=
+  if loadable raw n then Some (mkD (raw, n) (Some (initialize (stored_set raw) n))) else None.
+
+(* Ddnnf::new BEFORE repair F9: `if !clauses.is_empty()` - no cache for an empty stored set
+   (finding K14); kept only as the subject of C12_refuted_empty_cnf_v0 *)
+Definition load_cnf_v0 (loadable : clause_set -> nat -> bool)
            (raw : list (list Z)) (n : nat) : option dstate :=
   if loadable raw n then
     Some (mkD (raw, n)
               (match stored_set raw with
-               | [] => if cache_if_empty then Some (initialize [] n) else None
+               | [] => None
                | cs => Some (initialize cs n)
                end))
   else None.
-Definition load_cnf := load_cnf_with false.
 
 (* the two versions *)
 Definition step_fixed := cc_step false.
